@@ -198,6 +198,53 @@ def judge_node(st: Stats, runner: Runner, hist: History, specs: List[Dict[str, A
                            "fractions <= cut": [(r["event"], r["lot"], str(r["amount"])) for r in P["detail"]]}, cap=1)
 
 
+# A second asset of the same run whose whole history lies in 2019, before anything the tree puts into asset B1 (2020 onwards): whatever is
+# added to B1 is "dated after T = 2019-12-31" for this asset. Its rows carry the same spreadsheet row numbers as B1's (every sheet starts
+# at the same row), and RP2 computes all assets of a run with ONE engine and one set of method objects.
+OTHER_ASSET: List[History] = [
+    ((H.B(2, 1), "="), (H.B(1, 1), "d"), (H.B(3, 1), "d"), (H.S(1), "d"), (H.S(1), "d")),
+    ((H.B(3, 1), "="), (H.B(1, 2), "d"), (H.S(2), "d"), (H.B(2, 1), "d"), (H.S(1), "d")),
+]
+_OTHER_REF: Dict[Any, Any] = {}
+
+
+def judge_other_asset(st: Stats, hist: History, specs: List[Dict[str, Any]], sch: Sequence[Tuple[int, str]]) -> None:
+    from datetime import datetime, timezone
+
+    from rp2verif.seams import compute as C
+
+    cfg = C.configuration("us", allow_negative_balances=True)
+    for gi, g in enumerate(OTHER_ASSET):
+        for g_order in ("chrono", "reverse"):
+            st.inc("states")
+            st.inc("two_asset_runs")
+            gspecs = H.materialize(g, row_order=g_order, base=datetime(2019, 3, 1, 12, 0, 0, tzinfo=timezone.utc))
+            assert gspecs is not None
+            key = (gi, g_order, tuple(sch))
+            ref = _OTHER_REF.get(key)
+            if ref is None:
+                # the run truncated at T = 2019-12-31: B1 has no transaction yet, only this asset is computed
+                ref = C.dump(C.compute_tax(cfg, C.engine(sch), C.build_input(cfg, gspecs, "B2")))
+                _OTHER_REF[key] = ref
+            base = {"history": H.hist_str(hist), "hist": hist, "specs": specs, "schedule": list(sch), "other_asset": {"index": gi, "row_order": g_order, "specs": gspecs}}
+            tag = f"{sched_str(sch)}: B1 = {H.hist_str(hist)} || B2 (all of it in 2019, rows {g_order}) = {H.hist_str(g)}"
+            try:
+                eng = C.engine(sch)
+                C.compute_tax(cfg, eng, C.build_input(cfg, specs, "B1"))
+                got, err = C.try_dump(C.compute_tax(cfg, eng, C.build_input(cfg, gspecs, "B2")))
+            except Exception as exc:  # pylint: disable=broad-except
+                got, err = None, f"{type(exc).__name__}: {exc}"
+            st.inc("traces_validated_against_impl")
+            st.inc("transitions")
+            if got is None:
+                st.violation(dict(base, signature="C09 two assets: run failed", what=f"{tag} :: {err}"))
+                continue
+            problem = C.diff_dumps(got, ref)
+            if problem:
+                st.violation(dict(base, signature=f"C09 two assets: B1 transactions of 2020+ changed B2 figures of 2019 / {problem.split(':')[0].split('[')[0]}",
+                                  what=f"{tag} :: B2 in this run vs B2 in the run truncated at 2019-12-31 :: {problem}"))
+
+
 def worker(task: Tuple[Any, ...]) -> Stats:
     root, depth, schedules, steps, dev, row_order = task[:6]
     symbols = WIDE if dev == "wide" else SYMBOLS
@@ -222,7 +269,10 @@ def worker(task: Tuple[Any, ...]) -> Stats:
                         judge_node(st, runner, h2, s2, sch, edge_only=True)
             continue
         for sch in schedules:
-            judge_node(st, runner, hist, specs, sch)
+            if dev == "other":
+                judge_other_asset(st, hist, specs, sch)
+            else:
+                judge_node(st, runner, hist, specs, sch)
     return st
 
 
@@ -237,6 +287,7 @@ def plan(tier: str) -> List[Dict[str, Any]]:
             {"name": "wide alphabet", "schedules": singles, "steps": ("=", "d"), "depth": 3, "dev": "wide", "group": 1, "symbols": "wide"},
             {"name": "sheet order reversed", "schedules": singles, "steps": ("=", "d", "y"), "depth": 3, "dev": 0, "group": 2, "row_order": "reverse"},
             {"name": "one transaction in another UTC offset (edge form)", "schedules": singles, "steps": ("=", "h"), "depth": 3, "dev": "tz", "group": 2},
+            {"name": "two assets in one run: B1 grows in 2020+, B2 lies wholly in 2019", "schedules": singles, "steps": ("=", "d"), "depth": 3, "dev": "other", "group": 2},
         ]
     return [
         {"name": "preferred continuations, single methods", "schedules": singles, "steps": ("=", "d", "y"), "depth": 4, "dev": 0, "group": 1},
@@ -245,6 +296,7 @@ def plan(tier: str) -> List[Dict[str, Any]]:
         {"name": "wide alphabet", "schedules": singles, "steps": ("=", "d"), "depth": 4, "dev": "wide", "group": 1, "symbols": "wide"},
         {"name": "sheet order reversed", "schedules": singles, "steps": ("=", "d", "y"), "depth": 4, "dev": 0, "group": 2, "row_order": "reverse"},
         {"name": "one transaction in another UTC offset (edge form)", "schedules": singles, "steps": ("=", "h"), "depth": 4, "dev": "tz", "group": 1},
+        {"name": "two assets in one run: B1 grows in 2020+, B2 lies wholly in 2019", "schedules": singles + two, "steps": ("=", "d", "y"), "depth": 4, "dev": "other", "group": 1},
         {"name": "preferred continuations, depth 5", "schedules": singles, "steps": ("=", "d", "y"), "depth": 5, "dev": 0, "group": 1, "from_depth": 5},
     ]
 
@@ -317,7 +369,10 @@ def replay(path: str) -> int:
         p = json.load(f)
     st = Stats()
     hist = _to_tuple(p["hist"])
-    judge_node(st, Runner(), hist, p["specs"], [tuple(x) for x in p["schedule"]], p.get("cut"), edge_only=any(len(it) > 2 and it[2] for it in hist))
+    if p.get("other_asset"):
+        judge_other_asset(st, hist, p["specs"], [tuple(x) for x in p["schedule"]])
+    else:
+        judge_node(st, Runner(), hist, p["specs"], [tuple(x) for x in p["schedule"]], p.get("cut"), edge_only=any(len(it) > 2 and it[2] for it in hist))
     if st.violations:
         print(f"VIOLATION property={PROP} replay={path}\n  {st.violations[0]['what']}")
         return 1
